@@ -1154,6 +1154,24 @@ def fam_vis_exhaustive(rng):
     return out
 
 
+# found by harness/coverage.py (lines of the macro that no generated input reached): every option on impl blocks (only `debug` is
+# accepted: each of the others is rejected at its own span), after `ref` / `dyn`, alone and behind `debug`; an impl header with a where
+# clause. ("Read past the end" of input.rs cannot be reached through rustc: the compiler parses the item before the macro sees it.)
+def fam_coverage_gaps(rng):
+    out = []
+    item = "impl FooImpl for MyType { fn foo<D>(d: &D, a: i32) -> i32 { a } }"
+    for pre in ("", "ref ", "dyn ", "ref dyn "):
+        for o in OPT_VOCAB_FN + ["delegate_by = Borrow", "delegate_by = Deleg", "debug", "debug = true = false", "mock_api", "mock_api = 3", "unimock = maybe"]:
+            out.append(Case("coverage_gaps", pre + o, item))
+            out.append(Case("coverage_gaps", pre + "debug = false, " + o, item))
+    # an impl header the compiler accepts and the macro's own parser does not: a where clause before the block
+    for item in ("impl FooImpl for MyType where Self: Sized { fn f<D>(d: &D) {} }", "impl FooImpl for MyType where { fn f<D>(d: &D) {} }",
+                 "impl<T> FooImpl for Vec<T> where T: Send { fn f<D>(d: &D) {} }"):
+        out.append(Case("coverage_gaps", "", item))
+        out.append(Case("coverage_gaps", "ref", item))
+    return out
+
+
 def build_corpus(seed, tier):
     rng = random.Random(seed)
     thorough = tier == "thorough"
@@ -1184,6 +1202,7 @@ def build_corpus(seed, tier):
     cases += fam_c16_subpat(rng)
     cases += fam_dup_attrs(rng)
     cases += fam_vis_exhaustive(rng)
+    cases += fam_coverage_gaps(rng)
     for i, c in enumerate(cases):
         c.cid = i
     return cases
